@@ -44,6 +44,13 @@ func main() {
 		// two concretisations per case: the plain one and a seed/case dependent one
 		checkCase(raw, &c, vlib.NewConc(0), i)
 		checkCase(raw, &c, vlib.NewConc(run.Seed*7919+int64(i)), i)
+		// a quarter of the cases once more with every mapping in the kernel half of the address space (addresses
+		// beyond 2^63 are rebased like any others when the same binary is mapped elsewhere in another input)
+		if i%4 == int(run.Seed)%4 {
+			hc := vlib.NewConc(run.Seed*31 + int64(i))
+			hc.MapBase = 0xffffffff80000000
+			checkCase(raw, &c, hc, i)
+		}
 		if i%5000 == 0 {
 			run.Sample(c)
 		}
@@ -193,6 +200,24 @@ func checkCase(raw json.RawMessage, c *mcase, base *vlib.Conc, idx int) {
 			for i := range ps {
 				if now := vlib.ProjectFull(ps[i]); !now.Equal(snaps[i]) {
 					run.Violate("inputs", "input-aliased:"+aliasWhat(snaps[i], now), fmt.Sprintf("writing through the result changed input %d", perm[i]), raw, base)
+				}
+			}
+			// Merge is a function of what its inputs ARE when it is called: a merge result whose samples are relabelled
+			// afterwards (as the driver does for -diff_base) and merged again, next to a copy that still has the old
+			// labels, gives what fresh copies of the two give
+			if pi == 0 {
+				if m1, err := profile.Merge(ps); err == nil {
+					old := m1.Copy()
+					for _, s := range m1.Sample {
+						s.Label, s.NumLabel, s.NumUnit = map[string][]string{"relabelled": {"yes"}}, nil, nil
+					}
+					got, err1 := profile.Merge([]*profile.Profile{m1, old})
+					ref, err2 := profile.Merge([]*profile.Profile{m1.Copy(), old.Copy()})
+					if err1 != nil || err2 != nil {
+						run.Violate("merge-error", "merge-error:remerge", fmt.Sprint(err1, err2), raw, base)
+					} else if d := vlib.BagOf(vlib.Project(ref)).Diff(vlib.BagOf(vlib.Project(got))); d != "" || len(got.Sample) != len(ref.Sample) {
+						run.Violate("conservation", "remerge-after-relabel", fmt.Sprintf("a merge result relabelled and merged again (%d samples) differs from the merge of fresh copies (%d samples): %s", len(got.Sample), len(ref.Sample), d), raw, base)
+					}
 				}
 			}
 		}()
